@@ -1,25 +1,25 @@
 SPECIFICATION MCSpec
 CONSTANTS
-  Streams = {1, 3}
-  Pushed = {2, 4}
-  Remote = {}
+  Streams = {}
+  Pushed = {}
+  Remote = {1, 3}
   InitWin = 1
   ConnWin = 3
   RecvWin = 6
   MaxBuf = 18
-  MaxSend0 = 2
-  NCall = 10
+  MaxSend0 = 1
+  NCall = 14
   NApp = 12
   NPeer = 14
   MaxData = 2
-  CallKinds = {"poll_reset"}
-  AppKinds = {"request", "hold_push", "send_data", "send_reset", "drop_send"}
-  PeerKinds = {"HEADERS", "PHEADERS", "PP", "DATA", "TRAILERS", "RST"}
+  CallKinds = {"poll_capacity", "poll_reset", "poll_data", "poll_trailers"}
+  AppKinds = {"accept", "send_response", "reserve", "send_data", "send_reset", "release", "drop_send", "drop_recv"}
+  PeerKinds = {"REQ", "WU", "SET_IWS", "DATA", "TRAILERS", "RST", "EOF"}
   IwsVals = {0, 1, 2}
   MaxcVals = {0, 1, 2}
-  ReqEos = {FALSE, TRUE}
+  ReqEos = {FALSE}
   Allow = {"shared_slot", "reset_after_end", "push_after_recv_drop", "cancel_pending_open"}
-  ExportLen = 34
+  ExportLen = 40
 ACTION_CONSTRAINT Drained
 ACTION_CONSTRAINT LateEnd
 ACTION_CONSTRAINT Bias
